@@ -142,6 +142,63 @@ def p1(ctx: Ctx):
             ctx.ob(f"{p.cls}<emit", False, f"pass `{p.cls}` runs after the program text was produced", file=COMPILER_REL, line=p.line, props=["C05"])
 
 
+@rule("P10", "EXCLUSION-SETS: the string allocator is told about every DIMmed name, the implicit-array pass about the DIMmed arrays", ["C10"], floor=2)
+def p10(ctx: Ctx):
+    P = pipeline(ctx)
+    py = P.py
+
+    def source_of(cls: str, kw: str):
+        p_ = P.first(cls)
+        ctx.need(p_ is not None, cls, "pass not run by convert()")
+        k = next((k for k in p_.ctor.keywords if k.arg == kw), None)
+        ctx.need(k is not None, f"{cls}({kw}=)", "keyword not passed")
+        m = re.fullmatch(r"(\w+)\.(\w+)", unparse(k.value))
+        ctx.need(m is not None, f"{cls}({kw}=)", f"value `{unparse(k.value)}` is not `<pass>.<set>`")
+        src = next((q for q in P.passes if q.var == m.group(1)), None)
+        ctx.need(src is not None, f"{cls}({kw}=)", f"`{m.group(1)}` is not a pass object")
+        return p_, src, m.group(2)
+
+    def collects(cls: str) -> Optional[str]:
+        """'all' / 'arrays' / 'scalars' : which DIMmed names the collector class records."""
+        fn = py.cls(cls).methods.get("visit_statement")
+        if fn is None:
+            return None
+        for n in ast.walk(fn):
+            if isinstance(n, ast.ListComp) and "dim_vars" in unparse(n.generators[0].iter):
+                g = n.generators[0]
+                if not g.ifs:
+                    return "all"
+                t = unparse(g.ifs[0])
+                if "BasicArrayRef" in t and "not" not in t:
+                    return "arrays"
+                if "BasicVar" in t and "not" not in t:
+                    return "scalars"
+                return "filtered"
+        return None
+
+    al, src, attr = source_of("StrVarAllocatorVisitor", "dimmed_var_names")
+    kind = collects(src.cls)
+    ctx.need(kind is not None, src.cls, "cannot tell which DIMmed names this pass collects")
+    ok = kind == "all"
+    ctx.ob(
+        "StrVarAllocatorVisitor<-all-dimmed-names",
+        ok,
+        "" if ok else f"StrVarAllocatorVisitor excludes the names collected by `{src.cls}`, which records only {kind}: a string scalar that the source DIMs is declared a second time by the allocator (with the default size, overriding a configured one)",
+        file=COMPILER_REL,
+        line=al.ctor.lineno,
+        witness="" if ok else "10 DIM A$ / 20 A$=\"X\" with -s 80",
+    )
+    dl, src2, attr2 = source_of("DeclareImplicitArraysVisitor", "dimmed_var_names")
+    kind2 = collects(src2.cls)
+    ctx.need(kind2 is not None, src2.cls, "cannot tell which DIMmed names this pass collects")
+    ok2 = kind2 in ("all", "arrays")
+    ctx.ob("DeclareImplicitArraysVisitor<-dimmed-arrays", ok2, "" if ok2 else f"DeclareImplicitArraysVisitor excludes the names collected by `{src2.cls}` ({kind2}): arrays the source DIMs are declared again with bound 10", file=COMPILER_REL, line=dl.ctor.lineno)
+    # the source pass has run before its set is read
+    for user, s_ in ((al, src), (dl, src2)):
+        okb = s_.index < user.index
+        ctx.ob(f"{s_.cls}<{user.cls}", okb, "" if okb else f"`{s_.cls}` runs after `{user.cls}` reads its set", file=COMPILER_REL, line=user.line)
+
+
 # ---------------------------------------------------------------------------
 # P2 OPTION-INFLUENCE
 
